@@ -133,3 +133,19 @@ CASES += [
          old="      if ((it.currentNum() > 0) && !mIgnoreCardinality\n          && (mpCardinality.get() != nullptr))\n         mpCardinality->gotValue();",
          new="      if (!mIgnoreCardinality)\n      {\n         if ((it.currentNum() > 0) && (mpCardinality.get() != nullptr))\n            mpCardinality->gotValue();\n      } // end if"),
 ]
+
+VD = 'src/celma/prog_args/detail/value_constraint_differ.hpp'
+CASES += [
+    dict(id='c02-differ-scan-returns', prop='C02', file=VD, expect='R10',
+         old="      if (!arg1->hasValue())\n         continue;", new="      if (!arg1->hasValue())\n         return;"),
+    dict(id='c02-differ-inner-break', prop='C02', file=VD, expect='R10',
+         old="      for (auto const& arg2 : mArgHandlers)\n      {\n         if ((arg1 != arg2) && arg2->hasValue()",
+         new="      for (auto const& arg2 : mArgHandlers)\n      {\n         if (!arg2->hasValue())\n            break;\n         if ((arg1 != arg2) && arg2->hasValue()"),
+    dict(id='c06-clear-flag-only-when-filled', prop='C06', file=TA, expect='R5', count=2,
+         old="   if (mClearB4Assign)\n   {\n      mDestVar.clear();\n      // clear only once\n      mClearB4Assign = false;\n   } // end if\n\n   common::Tokenizer  tok( value, mListSep);\n   for (auto it = tok.begin(); it != tok.end(); ++it)\n   {\n      if ((it != tok.begin()) && !mIgnoreCardinality\n          && (mpCardinality.get() != nullptr))\n         mpCardinality->gotValue();\n\n      auto  list_val( *it);",
+         new="   if (mClearB4Assign && !mDestVar.empty())\n   {\n      mDestVar.clear();\n      // clear only once\n      mClearB4Assign = false;\n   } // end if\n\n   common::Tokenizer  tok( value, mListSep);\n   for (auto it = tok.begin(); it != tok.end(); ++it)\n   {\n      if ((it != tok.begin()) && !mIgnoreCardinality\n          && (mpCardinality.get() != nullptr))\n         mpCardinality->gotValue();\n\n      auto  list_val( *it);"),
+    dict(id='c04-tuple-null-cardinality', prop='C04', file=TA, expect='R7',
+         old="      if ((it.currentNum() > 0) && !mIgnoreCardinality\n          && (mpCardinality.get() != nullptr))", new="      if ((it.currentNum() > 0) && !mIgnoreCardinality)"),
+    dict(id='c04-eq-null-test-first', prop='C04', file=TA, expect=None,
+         old="      if ((it.currentNum() > 0) && !mIgnoreCardinality\n          && (mpCardinality.get() != nullptr))", new="      if (mpCardinality && (it.currentNum() > 0) && !mIgnoreCardinality)"),
+]
